@@ -37,8 +37,19 @@ def run(tier):
         if k % 10 == 0:
             p.insert(rnd.randrange(len(p) + 1), "bogus rax")  # failing programs must fail identically
         progs.append("\n".join(p))
+    # a few programs long enough to make a library-managed buffer GROW (several times) while other threads create, use and destroy
+    # their own instances: on the 8 KiB caller buffers they fail identically everywhere, on library buffers they grow
+    progs_grow = list(progs)
+    for k, nlines in enumerate((650, 900, 1500, 3000, 7000)):
+        progs_grow[10 + 17 * k] = "\n".join("mov r%d, 0x11223344556677%02x" % (8 + (i % 8), i & 0xff) for i in range(nlines))
     firsts = sorted(set(l[0] for l in lines))
     pf = os.path.join(common.workdir(), "c18-progs.txt")
+    # (not under ThreadSanitizer: it does not follow mremap, so memory that one thread's growth releases and another thread's
+    # growth receives is reported as a race between the two)
+    pfg = os.path.join(common.workdir(), "c18-progs-grow.txt")
+    with open(pfg, "w") as f:
+        for p in progs_grow:
+            f.write(common.hx(p) + "\n")
     with open(pf, "w") as f:
         for p in progs:
             f.write(common.hx(p) + "\n")
@@ -66,7 +77,7 @@ def run(tier):
         if timeouts[0] >= 2:  # two runs hit the (100x) time bound: the remaining ones are not started (inconclusive, like a timeout)
             return -999, "", "skipped after two timeouts"
         try:
-            r = subprocess.run([binary, pf, str(T), str(iters), str(seed), str(stag)] + extra, capture_output=True, text=True, env=env, timeout=300, errors="replace")
+            r = subprocess.run([binary, pf if fl == "tsan" else pfg, str(T), str(iters), str(seed), str(stag)] + extra, capture_output=True, text=True, env=env, timeout=300, errors="replace")
             return r.returncode, r.stdout, r.stderr
         except subprocess.TimeoutExpired:
             timeouts[0] += 1
